@@ -105,23 +105,26 @@ def make_entry(eid, prog, results, cx, dedupe=True):
     seen = {}
     meta = []
     index_of = {}           # (v, fp_eff, ac, mode, ss_eff) -> 1-based text index
-    ordered = sorted((r for r in results if "teal" in r), key=lambda r: (_opt_on(r["st"]), r["st"]["v"]))
+    ordered = sorted((r for r in results if "teal" in r), key=lambda r: (_opt_on(r["st"]), bool(r["st"].get("ac")), r["st"]["v"]))
     for r in ordered:
         st = r["st"]
         te = batch.text_entry(prog, r["teal"], settings_tag(st))
         key = stream_key(te["teal"])
-        gkey = (st["v"], _fp_on(st), bool(st.get("ac")), st.get("mode"))
+        gkey = (st["v"], _fp_on(st), st.get("mode"))
+        variant = (_opt_on(st), bool(st.get("ac")))
         if dedupe and key in seen:
             meta[seen[key]]["tags"].append(te["tag"])
-            index_of.setdefault(gkey + (_opt_on(st),), seen[key] + 1)
+            index_of.setdefault(gkey + variant, seen[key] + 1)
             continue
         seen[key] = len(texts)
-        index_of.setdefault(gkey + (_opt_on(st),), len(texts) + 1)
+        index_of.setdefault(gkey + variant, len(texts) + 1)
         cmpk = 0
-        if _opt_on(st):
-            cmpk = index_of.get(gkey + (False,), 0)
-            if cmpk == len(texts) + 1:
-                cmpk = 0
+        # reference: same version / convention / mode, first without constant assembly, then without optimisation
+        for ref in ([(variant[0], False)] if variant[1] else []) + ([(False, False)] if variant != (False, False) else []):
+            cmpk = index_of.get(gkey + ref, 0)
+            if cmpk and cmpk != len(texts) + 1:
+                break
+            cmpk = 0
         texts.append({"teal": [{k: v for k, v in ins.items() if k != "ln"} for ins in te["teal"]],
                       "R": te["R"], "tag": te["tag"], "cmp": cmpk})
         meta.append({"tags": [te["tag"]], "problems": te["problems"], "text": r["teal"], "st": st})
